@@ -3370,7 +3370,18 @@ impl GraphEngine {
         Ok(id)
     }
 
+    /// Striped lock serialising the read-modify-write of one adjacency-list key.
+    fn edge_list_lock(&self, key: &str) -> &RwLock<()> {
+        let h = key
+            .bytes()
+            .fold(0usize, |h, b| h.wrapping_mul(31).wrapping_add(usize::from(b)));
+        &self.index_locks[h % self.index_locks.len()]
+    }
+
     fn add_edge_to_list(&self, key: String, edge_id: u64) -> Result<()> {
+        // The list update is a get + put on the store: without mutual exclusion two concurrent
+        // updates of the same list lose one of the two entries.
+        let _guard = self.edge_list_lock(&key).write();
         let mut tensor = self.store.get(&key).unwrap_or_else(|_| TensorData::new());
         let mut edges = Self::extract_edge_ids(&tensor);
         if !edges.contains(&edge_id) {
@@ -6444,6 +6455,7 @@ impl GraphEngine {
     }
 
     fn remove_edge_from_list(&self, key: &str, edge_id: u64) -> Result<()> {
+        let _guard = self.edge_list_lock(key).write();
         if let Ok(mut tensor) = self.store.get(key) {
             // Remove from new Pointers format
             if let Some(TensorValue::Pointers(ptrs)) = tensor.get("_edges") {
